@@ -1,29 +1,43 @@
 from common import COMMON_ASSUME
 
 PROP = dict(
-    harness=['c16_meta.c', 'vf_arr.c', 'vf_ref.c'],
+    harness=['c16_meta.c', 'vf_arr.c'],
     level_text=('generated-input search: for FOR (scalar and batch encoder), '
                 'PFOR (three thresholds), group, RLE (both forms), Elias '
                 'gamma/delta, BP128 (all four), adaptive (auto and the six '
-                'forced encodings) and float (4 precisions x 3 modes) the '
-                'harness computes the ground truth from the input array and '
-                'from the bytes written (extent measured through two '
-                'complementary destination fills, stored exception list '
-                'parsed with the reference tagged-varint decoder) and compares '
-                'it with every metadata field and header accessor; decoding '
-                'with capacity n must yield the reported count; up to four '
-                'records are encoded back to back and re-found from the '
-                'reported sizes alone; deterministic sweep of every length '
-                '1..300 and the 384/512/2288/4096 neighbourhoods'),
-    level_note=('trusts the harness-side truth functions (tagged length, byte '
-                'width, Elias code lengths, BP128 block layout, run counting: '
-                'written from the documented formats in c13_codecs.h / '
-                'c16_meta.c), the reference tagged decoder of vf_ref.c and the '
-                'compilers. Not compared by design: varintRLEMeta.uniqueValues, '
-                'varintBP128GetCount on formats without a count header, '
-                'ReadMetadata.range/maxValue, ReadMeta of non-FOR/PFOR adaptive '
-                'encodings, the PFOR size predictor (only >= bytes written), '
-                'varintFloatReadMeta/Analyze (not defined in the tree)'),
+                'forced encodings) and float (4 precisions x 3 modes) every '
+                'metadata field and header accessor is compared with (1) the '
+                'truth computable from the input alone (count, min, max, range, '
+                'normalised group field widths, Elias code lengths, BP128 block '
+                'structure and widest packed number, maximal runs as a lower '
+                'bound), (2) the encoder\'s return value, which must also equal '
+                'the extent of the bytes really modified (two complementary '
+                'destination fills), (3) the other sources reporting the same '
+                'quantity (encoder meta == header reader == decoder-side meta '
+                'for FOR/PFOR width, PFOR exception count and marker, RLE run '
+                'count, adaptive type) with plausibility bounds from the input, '
+                'and (4) decoding: capacity n must yield the reported count, '
+                'RLE runs are walked with varintRLEDecodeRun, up to four records '
+                'are encoded back to back and re-found from the reported sizes '
+                'alone; deterministic sweep of every length 1..300 and the '
+                '384/512/2288/4096 neighbourhoods. The byte layout of the array '
+                'codecs is never parsed by the harness (no property pins it)'),
+    level_note=('trusts the harness-side truth functions (byte width, bit '
+                'width, Elias code lengths, run counting, block arithmetic: '
+                'c13_codecs.h / c16_meta.c) and the compilers. A quantity that '
+                'is the encoder\'s own choice (FOR/PFOR width, which values '
+                'PFOR patches, how RLE splits runs) is only checked for '
+                'agreement between its sources and for plausibility: a defect '
+                'that makes encoder meta, header reader and decoder agree on a '
+                'wrong-but-plausible number is out of reach (it would be a '
+                'lossless-ness defect, C02/C06). Not compared by design: '
+                'varintRLEMeta.uniqueValues, varintBP128GetCount on formats '
+                'without a count header, ReadMetadata.range/maxValue, ReadMeta '
+                'of non-FOR/PFOR adaptive encodings, the PFOR size predictor '
+                '(only >= bytes written), the header length returned by '
+                'varintPFORReadMeta / varintAdaptiveReadMeta (only 0 < h <= '
+                'bytes written), varintFloatReadMeta/Analyze (not defined in '
+                'the tree)'),
     rule=('case = (codec, variant, record count 1..4, array descriptors: '
           'record 0 up to 4200 elements (1/8 of the cases up to 20000; group '
           '64 fields; adaptive auto 2300), further records up to 300); '
@@ -44,6 +58,7 @@ PROP = dict(
         'adaptive.auto.DICT', 'adaptive.auto.BITMAP', 'adaptive.auto.TAGGED',
         'count<=240', 'count241-2287', 'count>=2288', 'count%128==0',
         'count%128==1', 'bp128.lastBlockFull', 'pfor.exceptions',
+        'pfor.unrepresentable',
         'rle.runs>=2', 'walk.records2', 'walk.records4', 'arr.tableLength',
     ],
     assumptions=COMMON_ASSUME + [
@@ -55,15 +70,29 @@ PROP = dict(
         'destinations are far larger than any published bound (bounds are '
         'property C03); decoders get exactly the original count as capacity',
         'the Elias encoders zero their whole worst-case area before writing, '
-        'so their byte extent is not measured (their return value is compared '
-        'with ceil(totalBits/8) and the reference code lengths instead)',
-        'PFOR: which width the encoder chooses is its own business (percentile '
-        'range, marker-collision handling); the truth for width, marker and '
-        'exception count is the stored layout [min][width][count][values]'
-        '[exception count][(index, value)...], which must end exactly at the '
-        'encoder\'s return value; an encoder returning 0 for an in-domain '
-        'array is reported as a violation (no allocation failures are '
-        'injected)',
+        'so their byte extent is not measured (totalBits is compared with the '
+        'mathematical code lengths and encodedBytes with the documented '
+        'ceil(totalBits/8) instead)',
+        'PFOR: which width the encoder chooses and which values it patches is '
+        'its own business (percentile range, marker-collision handling), and '
+        'so is the stored layout: width, marker and exception count are '
+        'checked for agreement between the encoder\'s meta, varintPFORReadMeta '
+        'and the decoder-side meta, and against the input (1 <= width <= 8, '
+        'marker = all-ones of width bytes, values whose offset does not fit '
+        'width bytes <= exceptionCount <= count); an encoder returning 0 for '
+        'an in-domain array is reported as a violation (no allocation failures '
+        'are injected)',
+        'FOR: offsetWidth must agree between meta, ReadMetadata and '
+        'GetOffsetWidth, be 1..8 and hold the range; minimality is not '
+        'required',
+        'RLE: the run count truth is the number of runs varintRLEDecodeRun '
+        'finds in the headerless encoding of the array (for the header form '
+        'the same array is encoded once more without header); it must be at '
+        'least the number of maximal runs; a zero-length run or trailer after '
+        'the last run is tolerated',
+        'BP128 delta formats pack the count-1 differences (the first value is '
+        'not a packed number): blockCount/lastBlockSize/maxBitWidth refer to '
+        'them',
         'BP128 delta formats with a single value have no block: '
         'lastBlockSize is not compared there',
         'walking compares each re-found record with its own first decode, not '
